@@ -33,9 +33,12 @@ def configs(tier):
             for shape in ("n", "n1"):
                 for combo in ("table_only", "table_and_range", "mixed"):
                     out.append(dict(kind="param", n=n, b=b, shape=shape, combo=combo, ncalls=ncalls, x64=False))
+    out.append(dict(kind="param", n=3, b=2, shape="n", combo="mixed", method="grid", ncalls=ncalls, x64=False))      # regular grid on the key's own range
     for nnet in (2, 3):
         for none_at in (None, 0, nnet - 1):
             out.append(dict(kind="multi", n=3, b=2, nnet=nnet, none_at=none_at, ncalls=ncalls, x64=False))
+        # the three user dictionaries list the networks in DIFFERENT insertion orders (tables are matched by network name)
+        out.append(dict(kind="multi", n=3, b=2, nnet=nnet, none_at=None, orders=True, ncalls=ncalls, x64=False))
     return out
 
 
@@ -96,22 +99,22 @@ def run(cfg, R):
         return
 
     if kind == "param":
-        shape, combo = cfg["shape"], cfg["combo"]
+        shape, combo = cfg["shape"], cfg["combo"]; method = cfg.get("method", "uniform")
         tab = jnp.arange(n, dtype=jnp.float32) * 0.5 + 7.0
         tab = tab if shape == "n" else tab[:, None]
         lo = jnp.array([0.0, 2.0]); hi = jnp.array([1.0, 3.5])
         def f(key, tab, lo, hi):
             if combo == "table_only":
-                g = DG.DataGeneratorParameter(key, n, b, user_data={"nu": tab})
+                g = DG.DataGeneratorParameter(key, n, b, user_data={"nu": tab}, method=method)
             elif combo == "table_and_range":     # the table has priority over the range given for the same key
-                g = DG.DataGeneratorParameter(key, n, b, param_ranges={"nu": (lo[0], hi[0])}, user_data={"nu": tab})
+                g = DG.DataGeneratorParameter(key, n, b, param_ranges={"nu": (lo[0], hi[0])}, user_data={"nu": tab}, method=method)
             else:
-                g = DG.DataGeneratorParameter(key, n, b, param_ranges={"mu": (lo[1], hi[1])}, user_data={"nu": tab})
+                g = DG.DataGeneratorParameter(key, n, b, param_ranges={"mu": (lo[1], hi[1])}, user_data={"nu": tab}, method=method)
             g0 = g; outs = []
             for _ in range(ncalls):
                 g, bt = g.get_batch(); outs.append(bt)
             return g0.param_n_samples, outs
-        name = f"param/n{n}/b{b}/{shape}/{combo}"
+        name = f"param/n{n}/b{b}/{shape}/{combo}" + ("/grid" if method == "grid" else "")
         R.note(functions=["jinns.data.DataGeneratorParameter.__post_init__/generate_data/param_batch"])
         tr = R.trace(name, f, (key, tab, lo, hi), key=f"param:user_data shape ({'n,' if shape == 'n' else 'n,1'}):raises", use_stubs=True, missing="example")
         if tr is None: return
@@ -136,7 +139,8 @@ def run(cfg, R):
             store, outs = O
             return [("stored samples[nu] lie in the range given for nu", tm.conj([band(le(lo_[0], e), le(e, hi_[0])) for e in store["nu"].flat]))]
         R.check(name, tr, goals, twin_fn=twins, extra_assume_fn=assume, validate=False,
-                hint_spec=[(r"a_2_", ("range", -3, -1)), (r"a_3_", ("range", 1, 3))], key_fn=lambda p, g: "param:" + g[:40])
+                hint_spec=[(r"a_2_", ("alt", [("range", -3, -1), ("range", 1, 2), ("range", -7, -5)])), (r"a_3_", ("alt", [("range", 1, 3), ("range", 2.5, 4), ("range", -4, -2)]))],
+                key_fn=lambda p, g: "param:" + g[:40])
         return
 
     if kind == "multi":
@@ -146,12 +150,16 @@ def run(cfg, R):
         tvals = {k: (None if i == none_at else jnp.arange(n, dtype=jnp.float32).reshape(n, 1) + 100.0 * (i + 1)) for i, k in enumerate(names)}
         teqs = {k: ({} if i == none_at else {"nu": jnp.arange(n, dtype=jnp.float32).reshape(n, 1) + 1000.0 * (i + 1)}) for i, k in enumerate(names)}
         def f(key, tins, tvals, teqs):
+            if cfg.get("orders"):      # rebuilt in-trace (the harness' flattening sorted them): inputs reversed, values rotated, parameters in order
+                tins = {k: tins[k] for k in reversed(names)}
+                tvals = {k: tvals[k] for k in names[1:] + names[:1]}
+                teqs = {k: teqs[k] for k in names}
             g = DG.DataGeneratorObservationsMultiPINNs(b, tins, tvals, observed_eq_params_dict=teqs, key=key)
             outs = []
             for _ in range(ncalls):
                 g, bt = g.get_batch(); outs.append(bt)
             return outs
-        name = f"multi/nets{nnet}/none{none_at}"
+        name = f"multi/nets{nnet}/none{none_at}" + ("/dict-orders-differ" if cfg.get("orders") else "")
         R.note(functions=["jinns.data.DataGeneratorObservationsMultiPINNs.__post_init__/obs_batch"])
         tr = R.trace(name, f, (key, tins, tvals, teqs), key="multi:raises", use_stubs=True, missing="example")
         if tr is None: return
